@@ -35,6 +35,29 @@ def rand_case(rng, kinds=None, nmin=6, nmax=30):
         if len(inst) <= b - a:
             pos = rng.randint(a, b - len(inst))
             t[pos:pos + len(inst)] = inst
+    if d["kind"] == "stop" and rng.random() < 0.6:
+        # the edit writes a stop codon in the specification's reading frame, the window lies on that codon
+        la, lb, lst = d["location"] if d.get("location") else (0, n, 0)
+        ncod = (lb - la) // 3
+        if ncod >= 1:
+            j = rng.randint(0, ncod - 1)
+            lo = la + 3 * j if lst != -1 else lb - 3 * (j + 1)
+            stop = rng.choice(["TAA", "TAG", "TGA"])
+            comp = {"A": "T", "T": "A", "G": "C", "C": "G"}
+            t = list(seq)
+            t[lo:lo + 3] = stop if lst != -1 else "".join(comp[x] for x in reversed(stop))
+            a = rng.randint(lo, lo + 2)
+            b = rng.randint(a + 1, lo + 3)
+            if rng.random() < 0.3:
+                a, b = lo, lo + 3
+            # positions of the codon outside the window keep the edited letters in the *unedited* sequence too, so
+            # that the edit is confined to the window
+            sq = list(seq)
+            for i in range(lo, lo + 3):
+                if not (a <= i < b):
+                    sq[i] = t[i]
+            seq = "".join(sq)
+            t = [t[i] if a <= i < b else seq[i] for i in range(n)]
     if d["kind"] == "cds" and d.get("start_codon") is not None and rng.random() < 0.6:
         # an interior Met codon turned into another start codon of the table, with the window on it: the localized
         # specification must read it as the full one does (a start codon is only special at the start)
